@@ -14,8 +14,34 @@ from .exec_expr import ExprMixin, _parse
 
 class CallMixin(ExprMixin):
 
+    # C casts of translated Cython code (pyvc/pyx.py): values are 64-bit two's-complement words; signedness of 64-bit
+    # types is not tracked (identity), narrower unsigned types mask, narrower signed types must already fit
+    CAST_IDENTITY = {"Py_ssize_t", "ssize_t", "int64_t", "long", "long long", "size_t", "uint64_t", "unsigned long",
+                     "char*", "char *", "void*", "void *", "unsigned char*", "unsigned char *", "const char*", "object"}
+    CAST_MASK = {"uint32_t": 32, "uint16_t": 16, "uint8_t": 8, "unsigned char": 8, "unsigned int": 32}
+    CAST_SIGNED = {"int32_t": 32, "int": 32, "int16_t": 16, "short": 16, "char": 8, "int8_t": 8}
+
+    def ev_cast(self, e, st):
+        cty = e.args[0].value
+        res = []
+        for s, v in self.ev(e.args[1], st):
+            if cty in self.CAST_IDENTITY or v.ty != INT:
+                res.append((s, v))
+            elif cty in self.CAST_MASK:
+                res.append((s, arith.binop(self, s, ast.BitAnd(), v, T.intval((1 << self.CAST_MASK[cty]) - 1), e.lineno)))
+            elif cty in self.CAST_SIGNED:
+                w = self.CAST_SIGNED[cty]
+                lo, hi = T.intval(-(1 << (w - 1))).t, T.intval((1 << (w - 1)) - 1).t
+                self.oblige(s, "overflow", "cast-to-%s-in-range" % cty.replace(" ", "-"), z3.And(v.t >= lo, v.t <= hi), e.lineno)
+                res.append((s, v))
+            else:
+                raise Unsupported("C cast to %s (line %s)" % (cty, e.lineno))
+        return res
+
     def ev_Call(self, e, st):
         ftext = ast.unparse(e.func)
+        if ftext == "__cast__" and not self.spec:
+            return self.ev_cast(e, st)
         # ---- specification-only forms (arguments are not evaluated eagerly)
         if self.spec and isinstance(e.func, ast.Name):
             n = e.func.id
@@ -930,6 +956,9 @@ class CallMixin(ExprMixin):
                 self.assume_valid(st, res)
         if any("fresh(result)" in e for e in cm.post):
             self.havoc_object(st, res)
+            if any(e.strip() == "fresh(result)" for e in cm.post) and isinstance(res.ty, Ref):
+                # an object created for us by the callee did not exist in our pre-state: writing it is inside our frame
+                st.flags["fresh"] = st.flags.get("fresh", []) + [res.t]
         post_st = st.copy()
         post_st.env = dict(call_st.env)
         post_st.env["result"] = res
